@@ -94,6 +94,12 @@ def cases(r):
                 std = " reset(); let s = %s%s; let sc = calls() > 0; assert!(format!(\"{:?}\", s) == format!(\"{:?}\", v) && sc == c, \"SPEC-GUARD std={:?} called={}\", s, sc);" % (lit, stdm)
             body = "reset(); let v = %s; let c = calls() > 0;%s format!(\"v={:?};called={}\", v, c)" % (call, std)
             yield body, expect, dict(r, mac="%s::%s!" % (fam, mac), form=fname)
+        if r.get("eager"):
+            # the by-value fallback is an ordinary argument: evaluated exactly once, used or not (as std's method call does)
+            call = "konst::%s::%s!(%s, { hit(); 9u32 })" % (fam, mac, lit)
+            std = " reset(); let s = %s%s; assert!(format!(\"{:?}\", s) == format!(\"{:?}\", v), \"SPEC-GUARD std={:?}\", s);" % (lit, stdm.replace("9u32", "{ hit(); 9u32 }"))
+            body = "reset(); let v = %s; let c = calls();%s format!(\"v={:?};evaluated={};std_evaluated={}\", v, c, calls())" % (call, std)
+            yield body, "v=%s;evaluated=1;std_evaluated=1" % render(exp["val"]), dict(r, mac="%s::%s!" % (fam, mac), form="eager-argument")
     elif mac == "flatten":
         def nl(a):
             if "none" in a:
@@ -142,6 +148,20 @@ def cases(r):
                         % ("u32" if single else "(%s)" % ", ".join(["u32"] * n), " ".join(decl), pat, ", ".join(obs), payload))
                 e = "ok=%s;err=skipped" % expv
             yield body, e, dict(r, mac=mname + "!")
+    elif fam == "rebind_order":
+        n = len(arg)
+        payload = "(%s)" % ", ".join("%du32" % (k + 1) for k in range(n))
+        pats = [{"p": "p", "x": "arr[p as usize]", "u": "_"}[k] for k in arg]
+        expv = render(exp["val"])
+        decl = "let mut p = 0u32; let mut arr = [0u32; 4];"
+        obs = "p, arr[0], arr[1], arr[2], arr[3]"
+        ty = "(%s)" % ", ".join(["u32"] * n)
+        body = ("fn inner(r: Result<%s, u8>) -> Result<String, u8> { %s konst::try_rebind!{(%s) = r} Ok(format!(\"{:?}\", [%s])) } "
+                "format!(\"{:?}\", inner(Ok(%s)))" % (ty, decl, ", ".join(pats), obs, payload))
+        yield body, 'Ok("%s")' % expv, dict(r, mac="try_rebind!(dependent places)")
+        body = ("fn inner(r: Result<%s, u8>) -> String { %s let mut seen = String::from(\"skipped\"); konst::rebind_if_ok!{(%s) = r => seen = format!(\"{:?}\", [%s]); } seen } "
+                "inner(Ok(%s))" % (ty, decl, ", ".join(pats), obs, payload))
+        yield body, expv, dict(r, mac="rebind_if_ok!(dependent places)")
     elif fam == "minmax":
         lk, rk = arg
         l, rr = "KI(%d, 'L')" % lk, "KI(%d, 'R')" % rk
